@@ -117,6 +117,56 @@ type c05Clock struct {
 	stage  int
 	spin   int
 	dlMemo map[time.Time]int64
+	// real-time history of the virtual clock: a deadline handed to SetReadDeadline is real-now-at-computation +
+	// timeout; the instant of computation is recovered from the known timeouts and mapped to the virtual time
+	// that was current then (so a deadline computed early and armed late keeps its early origin)
+	t0       time.Time
+	jumps    []c05Jump
+	timeouts []int64
+}
+
+type c05Jump struct {
+	real time.Time
+	now  int64
+}
+
+func (k *c05Clock) setNow(v int64) {
+	k.now = v
+	k.jumps = append(k.jumps, c05Jump{time.Now(), v})
+}
+
+func (k *c05Clock) virtualAt(r time.Time) int64 {
+	v := int64(0)
+	for _, j := range k.jumps {
+		if j.real.After(r) {
+			break
+		}
+		v = j.now
+	}
+	return v
+}
+
+// toVirtual: absolute virtual ms of a real deadline t.
+func (k *c05Clock) toVirtual(t time.Time) int64 {
+	realNow := time.Now()
+	fit, nfit := int64(0), 0
+	for _, T := range k.timeouts {
+		r0 := t.Add(-time.Duration(T) * time.Millisecond)
+		if r0.Before(k.t0) || r0.After(realNow) {
+			continue
+		}
+		abs := k.virtualAt(r0) + T
+		if nfit == 0 || abs != fit {
+			nfit++
+		}
+		fit = abs
+	}
+	if nfit == 1 {
+		return fit
+	}
+	// unknown timeout: assume it was computed just now; relative part rounded to 500 ms
+	rel := t.Sub(realNow)
+	return k.now + int64((rel+250*time.Millisecond)/(500*time.Millisecond)*500)
 }
 
 type c05Conn struct {
@@ -179,7 +229,7 @@ func (k *c05Clock) maybeAdvance() bool {
 		return false
 	}
 	if minWake > k.now {
-		k.now = minWake
+		k.setNow(minWake)
 	}
 	k.cond.Broadcast()
 	return true
@@ -233,7 +283,7 @@ func (c *c05Conn) Read(p []byte) (int, error) {
 				c.eofSpins++
 				if c.eofSpins >= 200 {
 					k.spin++
-					k.now = c.dl
+					k.setNow(c.dl)
 					c.eofSpins = 0
 				}
 			}
@@ -325,15 +375,7 @@ func (c *c05Conn) SetReadDeadline(t time.Time) error {
 		c.dl = 0
 		k.ev(c, "dlpast", 0)
 	default:
-		// A deadline value that was seen before (Sniffer.deadline is computed once and re-armed on every
-		// round) keeps its first conversion; otherwise it was computed "now": relative part rounded to 500 ms.
-		abs, ok := k.dlMemo[t]
-		if !ok {
-			rel := time.Until(t)
-			ms := int64((rel + 250*time.Millisecond) / (500 * time.Millisecond) * 500)
-			abs = k.now + ms
-			k.dlMemo[t] = abs
-		}
+		abs := k.toVirtual(t)
 		c.dl = abs
 		k.ev(c, "dl", abs-k.now)
 	}
@@ -467,7 +509,15 @@ type c05Gate struct {
 }
 
 func c05RunMem(cs *c05Case, gate *c05Gate) (res c05Result) {
-	clk := &c05Clock{stuck: make(chan struct{}), dlMemo: map[time.Time]int64{}}
+	clk := &c05Clock{stuck: make(chan struct{}), dlMemo: map[time.Time]int64{}, t0: time.Now()}
+	graceMs := int64(relayHalfCloseTimeout / time.Millisecond)
+	if cs.GraceMs > 0 {
+		graceMs = cs.GraceMs
+	}
+	clk.timeouts = []int64{graceMs, int64(TCPDNSFirstReadTimeout / time.Millisecond), int64(TCPDNSNextReadTimeout / time.Millisecond)}
+	if cs.SniffMs > 0 {
+		clk.timeouts = append(clk.timeouts, cs.SniffMs)
+	}
 	clk.cond = sync.NewCond(&clk.mu)
 	L := &c05Conn{clk: clk, name: "L", dl: -1, eofAt: cs.Client.EofAt}
 	R := &c05Conn{clk: clk, name: "R", dl: -1, eofAt: cs.Server.EofAt, idleOK: true}
